@@ -1,366 +1,5 @@
-import Pko.Util
-import Pko.Model.Template
-import Pko.Model.TemplateSpec
-/-! Line driver for C18.  `model` replays a history on `Pko.Model.Template` with the concrete
-leaves that mirror the harness's template family (`harness/C18`) and prints what the Go harness
-prints; `monitor` evaluates `Pko.Model.TemplateSpec.checkPass` (the property) on the
-IMPLEMENTATION's trace: the state before each pass is the last state the implementation reported
-plus the environment steps since. -/
-namespace Pko.Drv.C18
-open Lean Pko.Model.Template Pko.Model.TemplateSpec
-
-structure JItem where
-  kf : String
-  kk : String
-  d : String
-  deriving FromJson
-
-structure JSrc where
-  kind : String
-  ns : String
-  name : String
-  opt : Bool
-  items : List JItem
-  deriving FromJson
-
-structure JRef where
-  d : String
-  strict : Bool
-  deriving FromJson
-
-structure JTmpl where
-  form : String
-  kind : String
-  ns : String
-  own : Bool
-  env : Bool
-  refs : List JRef
-  deriving FromJson
-
-structure JKV where
-  k : String
-  v : String
-  deriving FromJson
-
-structure JOCond where
-  t : String
-  s : Bool
-  og : String
-  deriving FromJson
-
-structure JStep where
-  op : String
-  kind : String
-  ns : String
-  name : String
-  vals : List JKV
-  l : Bool
-  obsGen : Int
-  conds : List JOCond
-  v : String
-  deriving FromJson
-
-structure Scn where
-  cluster : Bool
-  peer : Bool
-  env : String
-  tmpl : JTmpl
-  srcs : List JSrc
-  steps : List JStep
-  deriving FromJson
-
-/-! ### concrete leaves: the harness's keyUniverse and template family -/
-
-def scopeOf : String → Scope
-  | "NK" => .namespaced | "NK2" => .namespaced | "CK" => .cluster | _ => .unknown
-
-def lookup (l : List (String × String)) (k : String) : Option String :=
-  (l.find? (fun e => e.1 == k)).map (·.2)
-
-def setKV (l : List (String × String)) (k v : String) : List (String × String) :=
-  if l.any (fun e => e.1 == k) then l.map (fun e => if e.1 == k then (k, v) else e) else l ++ [(k, v)]
-
-/-- canonical form of a payload: last value per key, sorted by key (what a Go map prints as). -/
-def canon (l : List (String × String)) : List (String × String) :=
-  (l.foldl (fun acc e => setKV acc e.1 e.2) []).mergeSort (fun a b => a.1 ≤ b.1)
-
-/-- `copySourceItem` on the harness's key forms (`Item.key` = "<form>:<data key>"). -/
-def copyLeaf (it : Item) (k : Key) (o : Obj) (cfg : Config) : Option Config :=
-  let value : Option String := match it.key.splitOn ":" with
-    | [kf, kk] =>
-      if kf == "dot" || kf == "bare" || kf == "brace" || kf == "bbare" then lookup o.data kk
-      else if kf == "name" then some k.name
-      else none                       -- "bad": not a JSONPath; "empty": yields no JSON
-    | _ => none
-  match value with
-  | none => none
-  | some v =>
-    if it.dest.startsWith "." then some (setKV cfg (it.dest.drop 1).toString v)
-    else none                         -- JSONPathFormatError
-
-def renderLeaf (t : JTmpl) (cfg : Config) (env : String) : RenderRes :=
-  if t.form == "parse" then .templateErr
-  else if t.refs.any (fun r => r.strict && (lookup cfg r.d).isNone) then .templateErr  -- missingkey=error
-  else if t.form != "ok" then .unmarshalErr
-  else
-    let envPart : Data := if t.env then [("env", env)] else []
-    let refPart : Data := (List.range t.refs.length).zip t.refs |>.map fun (i, r) =>
-      (s!"f{i}", (lookup cfg r.d).getD "none")
-    .ok { kind := t.kind, ns := t.ns, name := "t", data := canon (envPart ++ refPart), hasOwner := t.own }
-
-def leaves : Leaves JTmpl := { scope := scopeOf, copy := copyLeaf, render := renderLeaf }
-
-def tmplNS : String := "ns1"
-
-def toSpec (s : Scn) : Spec JTmpl :=
-  { ns := if s.cluster then "" else tmplNS, template := s.tmpl,
-    sources := s.srcs.map fun j =>
-      { kind := j.kind, ns := j.ns, name := j.name, optional := j.opt,
-        items := j.items.map fun i => { key := s!"{i.kf}:{i.kk}", dest := i.d } } }
-
-def initWorld (s : Scn) : World :=
-  { objs := fun _ => none,
-    tmpl := some { finalizer := false, deleting := false, status := ⟨.none, [], none⟩ },
-    watches := if s.peer then [("CK", .peer), ("NK", .peer)] else [],
-    env := s.env }
-
-inductive Step where
-  | env (op : EnvOp) (isObj : Bool)
-  | reconcile
-  | bad
-
-def toStep (j : JStep) : Step :=
-  let k : Key := ⟨j.kind, j.ns, j.name⟩
-  match j.op with
-  | "put" => .env (.put k (canon (j.vals.map fun e => (e.k, e.v))) j.l) true
-  | "del" => .env (.del k) true
-  | "unlabel" => .env (.unlabel k) true
-  | "status" =>
-    .env (.setStatus k (if j.obsGen < 0 then none else some j.obsGen.toNat)
-      (j.conds.map fun c => (c.t, c.s, "R", c.og == "cur"))) true
-  | "deltmpl" => .env .delTmpl false
-  | "restart" => .env .restart false
-  | "setenv" => .env (.setEnv j.v) false
-  | "rec" => .reconcile
-  | _ => .bad
-
-/-- every key an object of the history can live at -/
-def keyUniverse (s : Scn) : List Key :=
-  let stepKeys := s.steps.filterMap fun j =>
-    if j.kind == "" || scopeOf j.kind == .unknown then none else some (norm scopeOf ⟨j.kind, j.ns, j.name⟩)
-  let tgt := [s.tmpl.ns, tmplNS, ""].filterMap fun ns =>
-    if scopeOf s.tmpl.kind == .unknown then none else some (norm scopeOf ⟨s.tmpl.kind, ns, "t"⟩)
-  (stepKeys ++ tgt).eraseDups
-
-/-! ### printing -/
-
-def keyStr (k : Key) : String := s!"{k.kind}/{k.ns}/{k.name}"
-
-def dataStr (d : Data) : String := "+".intercalate (d.map fun e => s!"{e.1}={e.2}")
-
-def sortStr (l : List String) : List String := l.mergeSort (fun a b => a ≤ b)
-
-def outStr : Outcome → String
-  | .ok => "ok" | .requeueOpt => "requeue-opt" | .requeueRes => "requeue-res" | .err => "err"
-
-def invStr : Invalid → String
-  | .none => "-" | .source => "SourceError" | .template => "TemplateError"
-
-def verbStr : Verb → String
-  | .create => "create" | .update => "update" | .merge => "merge" | .status => "status"
-
-def writeStr (spec : Spec JTmpl) (x : Write) : String :=
-  let sc := if x.key = tmplKey spec then "T" else match scopeOf x.key.kind with
-    | .namespaced => "N" | .cluster => "C" | .unknown => "U"
-  s!"{verbStr x.verb}:{sc}:{keyStr x.key}" ++ (if x.failed then "!AlreadyExists" else "")
-
-def watchStr (ws : List (String × Owner)) : String :=
-  let kinds := (ws.map (·.1)).eraseDups
-  let entries := kinds.map fun k =>
-    let os := sortStr ((ws.filter (·.1 == k)).map fun e => match e.2 with | .tmpl => "T" | .peer => "P")
-    s!"{k}:{"+".intercalate os}"
-  ",".intercalate (sortStr entries)
-
-def objsStr (keys : List Key) (objs : Objs) : String :=
-  ",".intercalate <| sortStr <| keys.filterMap fun k => (objs k).map fun o =>
-    s!"{keyStr k}\{{dataStr o.data}}{if o.label then "L" else "-"}g{o.gen}"
-
-def recStr (spec : Spec JTmpl) (keys : List Key) (r : PassRes) : String :=
-  let w := r.world
-  let (inv, conds, ctl, ts) := match w.tmpl with
-    | none => ("-", "", "-", "gone")
-    | some t =>
-      (invStr t.status.invalid,
-       ",".intercalate (sortStr (t.status.conds.map fun (c : Cond) => s!"{c.type}={if c.status then "T" else "F"}:{c.reason}")),
-       (match t.status.controllerOf with | some k => keyStr k | none => "-"),
-       if t.deleting then "del" else if t.finalizer then "fin" else "new")
-  s!"R {outStr r.out} inv={inv} conds={conds} ctl={ctl} w={",".intercalate (r.writes.map (writeStr spec))} objs={objsStr keys w.objs} watch={watchStr w.watches} tmpl={ts}"
-
-def model (s : Scn) : String := Id.run do
-  let spec := toSpec s
-  let keys := keyUniverse s
-  let mut w := initWorld s
-  let mut outs : Array String := #[]
-  for j in s.steps do
-    match toStep j with
-    | .bad => return "BAD-OP"
-    | .env op isObj =>
-      let (w', n) := envStep leaves w op
-      w := w'
-      outs := outs.push (if isObj then s!"E enq={n}" else "E")
-    | .reconcile =>
-      let r := reconcile leaves spec w
-      w := r.world
-      outs := outs.push (recStr spec keys r)
-  return ";".intercalate outs.toList
-
-/-! ### monitor -/
-
-def field (fs : List String) (name : String) : Option String :=
-  fs.findSome? fun f => if f.startsWith (name ++ "=") then some (f.drop (name.length + 1)).toString else none
-
-def parseOut : String → Option Outcome
-  | "ok" => some .ok | "requeue-opt" => some .requeueOpt | "requeue-res" => some .requeueRes
-  | "err" => some .err | _ => none
-
-def parseInv : String → Option Invalid
-  | "-" => some .none | "SourceError" => some .source | "TemplateError" => some .template | _ => none
-
-def parseKey (s : String) : Option Key :=
-  match s.splitOn "/" with
-  | [a, b, c] => some ⟨a, b, c⟩
-  | _ => none
-
-def parseWrite (s : String) : Option Write :=
-  match s.splitOn ":" with
-  | [v, _, rest] =>
-    let (ks, failed) := match rest.splitOn "!" with
-      | [k] => (k, false)
-      | k :: _ => (k, true)
-      | [] => ("", false)
-    let verb : Option Verb := match v with
-      | "create" => some .create | "update" => some .update | "merge" => some .merge
-      | "status" => some .status | _ => none
-    match verb, parseKey ks with
-    | some vb, some k => some ⟨vb, k, failed⟩
-    | _, _ => none
-  | _ => none
-
-def parseData (s : String) : Data :=
-  if s.isEmpty then [] else (s.splitOn "+").map fun e =>
-    match e.splitOn "=" with
-    | k :: rest => (k, "=".intercalate rest)
-    | [] => ("", "")
-
-/-- `Kind/ns/name{a=x+b=y}Lg3` -/
-def parseObj (s : String) : Option (Key × Obj) :=
-  match s.splitOn "{" with
-  | [ks, rest] =>
-    match rest.splitOn "}" with
-    | [ds, tail] =>
-      match parseKey ks with
-      | some k =>
-        let label := tail.startsWith "L"
-        let gen := ((tail.drop 2).toString.toNat?).getD 1
-        some (k, ⟨parseData ds, label, gen, none, []⟩)
-      | none => none
-    | _ => none
-  | _ => none
-
-def parseWatch (s : String) : List (String × Owner) :=
-  if s.isEmpty then [] else (s.splitOn ",").flatMap fun e =>
-    match e.splitOn ":" with
-    | [k, os] => (os.splitOn "+").map fun o => (k, if o == "T" then Owner.tmpl else Owner.peer)
-    | _ => []
-
-def listAll {α} (l : List (Option α)) : Option (List α) :=
-  l.foldr (fun x acc => match x, acc with | some a, some as => some (a :: as) | _, _ => none) (some [])
-
-structure Parsed where
-  obs : Obs
-  objs : Objs
-  tmplState : String
-
-def parseRec (line : String) : Option Parsed := do
-  let fs := line.splitOn " "
-  guard (fs.head? == some "R")
-  let out ← parseOut (fs.getD 1 "")
-  let inv ← parseInv (← field fs "inv")
-  let wsS ← field fs "w"
-  let ws ← listAll (if wsS.isEmpty then [] else (wsS.splitOn ",").map parseWrite)
-  let osS ← field fs "objs"
-  let os ← listAll (if osS.isEmpty then [] else (osS.splitOn ",").map parseObj)
-  let watch := parseWatch (← field fs "watch")
-  let ts ← field fs "tmpl"
-  let objs : Objs := fun k => (os.find? (fun e => e.1 = k)).map (·.2)
-  some { obs := { out := out, invalid := inv, writes := ws,
-                  objs := fun k => (objs k).map fun o => (o.data, o.label), watches := watch },
-         objs := objs, tmplState := ts }
-
-def monitor (s : Scn) (out : String) : String := Id.run do
-  let spec := toSpec s
-  let keys := keyUniverse s
-  let lines := if out.isEmpty then [] else out.splitOn ";"
-  if lines.length != s.steps.length then
-    return s!"bad step-count impl={lines.length} scn={s.steps.length} out={(out.take 120).toString}"
-  let mut w := initWorld s
-  let mut i := 0
-  for (j, line) in s.steps.zip lines do
-    match toStep j with
-    | .bad => return "bad BAD-OP"
-    | .env op isObj =>
-      if isObj then
-        -- a visible change of an object whose kind the template watches must enqueue the template
-        let k := norm scopeOf ⟨j.kind, j.ns, j.name⟩
-        let before := w.objs k
-        let w' := (envStep leaves w op).1
-        -- (status edits are exempt: the implementation's report does not carry the status the
-        -- comparison would need)
-        let need := j.op != "status" && scopeOf j.kind != .unknown &&
-          mustEnqueue w.watches k.kind before (w'.objs k)
-        let got := (field (line.splitOn " ") "enq").bind (·.toNat?)
-        match got with
-        | none => return s!"bad unparsable step={i} line={line}"
-        | some n =>
-          if need && n == 0 then return s!"bad not-enqueued step={i} op={j.op} key={keyStr k}"
-        w := w'
-      else
-        w := (envStep leaves w op).1
-    | .reconcile =>
-      match parseRec line with
-      | none => return s!"bad unparsable step={i} line={(line.take 160).toString}"
-      | some p =>
-        if !checkPass leaves spec keys w p.obs then
-          let why := match w.tmpl with
-            | none => "gone"
-            | some t =>
-              if t.deleting then "watches-kept-after-deletion"
-              else if !bounded leaves spec p.obs then "write-out-of-bounds"
-              else match specGather leaves spec w.objs spec.sources [] false with
-                | .srcErr m => if m then "missing-required-source" else "source-error"
-                | .ok cfg retry =>
-                  match renderLeaf spec.template cfg w.env with
-                  | .templateErr => "template-error"
-                  | .unmarshalErr => "unrenderable-template"
-                  | .ok r =>
-                    if !admissible scopeOf spec.ns r.kind r.ns r.hasOwner then "target-out-of-bounds"
-                    else if p.obs.out = Outcome.err then "error-without-api-refusal"
-                    else if !retried retry p.obs then "optional-not-retried"
-                    else if p.obs.invalid ≠ Invalid.none then "invalid-on-valid-template"
-                    else if !sourcesObserved leaves spec p.obs then "source-unwatched-or-unlabelled"
-                    else s!"target-differs want={dataStr r.data}"
-          return s!"bad pass {why} step={i} got={(line.take 200).toString}"
-        -- continue from the state the implementation reported
-        let tm : Option Tmpl := match p.tmplState with
-          | "gone" => none
-          | "del" => some ⟨true, true, ⟨p.obs.invalid, [], none⟩⟩
-          | "fin" => some ⟨true, false, ⟨p.obs.invalid, [], none⟩⟩
-          | _ => some ⟨false, false, ⟨p.obs.invalid, [], none⟩⟩
-        w := { w with objs := p.objs, watches := p.obs.watches, tmpl := tm }
-    i := i + 1
-  return "ok"
-
-end Pko.Drv.C18
+import Pko.Drv.C18Common
+/-! Line driver for C18: `model` and `monitor` live in `Pko.Drv.C18Common`. -/
 
 def main (args : List String) : IO UInt32 :=
   Pko.Util.driverMain Pko.Drv.C18.Scn Pko.Drv.C18.model Pko.Drv.C18.monitor args
